@@ -1,6 +1,7 @@
 """C14 - autonomous mode selector: faithful discovery, one active mode, clean lifecycle."""
 from .. import fn
 from ..closure import close
+from ..framework import AnalysisError
 from ..interp import AbsRaise, Interp
 from ..values import ClassV, DictV, Ext, ListOf, ListV, Obj, Sym, show
 
@@ -98,6 +99,44 @@ def ctor_paths(ctx, SEL):
     return fn.all_paths(ctx, run, hooks=CtorHooks, max_paths=200000), extra
 
 
+FILES = ["sweep.py", "strategy.py", "drive.py", "__init__.py", "happy.py", "two_ball.py", "app.py", "py.py", "relay.py", "a.b.py"]
+
+
+class NameHooks(CtorHooks):
+    """file names chosen so that wrong ways of dropping the '.py' suffix show (names ending in '.', 'p', 'y')"""
+
+    def ext_call(self, it, f, args, kwargs, node):
+        if f.path == "glob.glob":
+            return ListV(["/robot/autonomous/" + n for n in FILES])
+        if f.path == "inspect.getmembers":
+            it.emit("ext", f.path, args, kwargs, node=node)
+            return ListV([])
+        if f.path == "importlib.import_module":
+            it.emit("ext", f.path, args, kwargs, node=node)
+            return Ext(f"module({show(args[0])})", "lib", role="module")
+        return CtorHooks.ext_call(self, it, f, args, kwargs, node)
+
+
+def module_names(ctx, SEL, site):
+    """C14.O6: every file NAME.py of the package directory (except __init__.py) is imported as module '.NAME'"""
+    ctx.rule("C14.O6", "module scan: file NAME.py is imported as '.NAME' (suffix removed, nothing else), __init__.py is skipped")
+
+    def run(it, w):
+        it.call(SEL, ["autonomous"], {})
+        return [e.args[0] for e in it.trace if e.kind == "ext" and e.name == "importlib.import_module" and len(e.args) > 1]
+
+    paths = [p for p in fn.all_paths(ctx, run, hooks=NameHooks, max_paths=5000) if p.outcome == "return"]
+    ctx.add("paths", len(paths))
+    ctx.floor("module scan paths with concrete file names", len(paths), 1)
+    want = ["." + n[:-3] for n in FILES if n != "__init__.py"]
+    for p in paths:
+        got = p.value
+        if not all(isinstance(x, str) for x in got):
+            raise AnalysisError(f"module names are not derived from the file names by string operations the analysis evaluates: {got!r}")
+        ctx.require(sorted(got) == sorted(want), "C14.O6", f"files {FILES} -> modules {want}", f"for the files {FILES} the scan imports the modules {got}; expected {want} (the '.py' suffix must be cut off, not its characters stripped)", site=site, key="C14.O6|names")
+        break
+
+
 def check(ctx):
     ctx.assume("python", "import", "ds")
     for r, t in (("C14.O1", "instantiate iff MODE_NAME is not None and DISABLED falsy; once; nothing after a failed module import"),
@@ -110,6 +149,7 @@ def check(ctx):
     msel = fn.module(ctx, MOD)
     SEL = msel.ns.get("AutonomousModeSelector")
     site = (msel.filename, SEL.lookup("__init__")[1].node.lineno, "AutonomousModeSelector.__init__")
+    module_names(ctx, SEL, site)
     paths, extra = ctor_paths(ctx, SEL)
     ctx.add("paths", len(paths))
     ctx.add("evaluations", len(paths))
@@ -432,7 +472,9 @@ def lifecycle(ctx, msel, SEL, world):
             nrun += 1
             timers = [e for e in tr if e.kind == "ext" and e.name == "wpilib.Timer"]
             starts = [e for e in tr if e.kind == "ext" and e.name.endswith("Timer().start")]
-            resets = [e for e in tr if e.kind == "ext" and "Timer()." in e.name and e.name.rsplit(".", 1)[-1] in ("reset", "restart", "stop")]
+            # the only things done to the period timer are start() and get(): anything else (reset, restart, stop,
+            # advanceIfElapsed, ...) moves or freezes the elapsed time that on_iteration receives
+            resets = [e for e in tr if e.kind == "ext" and "Timer()." in e.name and e.name.rsplit(".", 1)[-1] not in ("start", "get", "hasElapsed", "isRunning")]
             first_cb = next((i for i, e in enumerate(tr) if e.kind == "user"), len(tr))
             if len(timers) != 1 or len(starts) != 1 or resets or (starts and tr.index(starts[0]) > first_cb):
                 bad.add(f"elapsed time: {len(timers)} timers created, {len(starts)} starts, resets {[e.name for e in resets]} - on_iteration(t) must get the time since one timer started before on_enable")
